@@ -133,6 +133,10 @@ pub struct Profile {
     pub small_start_permille: u64,
     /// construct through `DelaunayTriangulationBuilder::toroidal` / `toroidal_periodic` (C16)
     pub toroidal: bool,
+    /// per-mille probability that a D = 2 run is constructed through `toroidal_periodic` (a closed
+    /// torus, chi = 0: the only valid states where simplex counts cannot be derived from each other
+    /// by the ball's Euler relation)
+    pub periodic2d_permille: u64,
     /// see `Gen::preset_incident_permille`
     pub preset_incident_permille: u64,
     /// per-mille probability that a step (or the constructor) runs with one predicate call of
@@ -165,6 +169,7 @@ impl Default for Profile {
             legal_bias_permille: 0,
             small_start_permille: 0,
             toroidal: false,
+            periodic2d_permille: 0,
             preset_incident_permille: 0,
             kernel_fault_permille: 0,
             class_b_permille: 0,
@@ -341,7 +346,12 @@ pub fn run<K: SimKernel<D>, const D: usize>(
         prologue.push(Op::Empty { obj: 0, tg: tg.to_string() });
     } else {
         let mut r = Rng::sub(rs, "init", 0);
-        let (ctor, opts) = if profile.toroidal {
+        let periodic_only = !profile.toroidal && D == 2 && profile.periodic2d_permille > 0 && Rng::sub(rs, "periodic2d", 0).below(1000) < profile.periodic2d_permille;
+        let (ctor, opts) = if periodic_only {
+            let per = crate::generate::torus_periods(rs, D);
+            let hex: Vec<String> = per.iter().map(|p| format!("{:x}", p.to_bits())).collect();
+            (format!("toroidal_periodic:{}", hex.join(",")), crate::ops::Opts::default())
+        } else if profile.toroidal {
             let per = crate::generate::torus_periods(rs, D);
             let hex: Vec<String> = per.iter().map(|p| format!("{:x}", p.to_bits())).collect();
             let mode = if D == 2 && r.chance(3, 10) { "toroidal_periodic" } else { "toroidal" };
